@@ -155,8 +155,14 @@ impl SendWindow {
     /// A reference to the receiving window is necessary, because - as per the Matter Core spec -
     /// the window is considered also full at level = 1 if the receiving window does not have
     /// a pending ACK.
+    ///
+    /// NOTE: "pending ACK" means an ACK which will really be put into the next segment
+    /// (`RecvWindow::pending_ack`), not just `ack_level > 0`: while a complete message sits
+    /// un-fetched in the receive buffer no ACK is sent, and using the last slot for a segment
+    /// without an ACK lets both peers exhaust their send windows with nothing in flight -
+    /// after which neither of them can ever send an ACK again (deadlock).
     fn is_full(&self, recv_window: &RecvWindow) -> bool {
-        self.level == 0 || self.level == 1 && recv_window.ack_level == 0
+        self.level == 0 || self.level == 1 && recv_window.pending_ack().is_none()
     }
 
     /// Return the next sequence to be used when sending a BTP segment.
